@@ -30,7 +30,8 @@ let () =
   try
     while true do
       let line = input_line stdin in
-      print_string (string_of_coq (Model.handle_line (coq_of_string line)));
+      (try print_string (string_of_coq (Model.handle_line (coq_of_string line)))
+       with Stack_overflow -> print_string "(driver-stack-overflow)");
       print_char '\n'
     done
   with End_of_file -> ()
